@@ -23,37 +23,37 @@ PROPS = {
             "mc": ["MC_Core2"]},
     "C03": {"families": ["slowop", "faults", "validate"],
             "nontrivial_rule": "a leader loses its record or has a failed/timed-out refresh",
-            "mc": ["MC_Faults"]},
+            "mc": ["MC_Faults", "MC_Outside"]},
     "C04": {"families": ["validate"],
             "nontrivial_rule": "a ValidateToken / ValidateTokenOrDemote call returned",
-            "mc": ["MC_Faults"]},
+            "mc": ["MC_Validate", "MC_OutsideVal"]},
     "C05": {"families": ["conform", "witness", "slowop", "regress", "core", "prio", "faults", "health"],
             "nontrivial_rule": "two or more successful acquisitions (terms) in the trace",
             "mc": ["MC_Core2", "MC_Prio"]},
     "C06": {"families": ["vacancy", "faults", "stop"],
             "nontrivial_rule": "the record becomes vacant (delete, expiry) while another instance runs",
-            "mc": ["MC_Faults"]},
+            "mc": ["MC_Vacancy", "MC_Faults"]},
     "C07": {"families": ["conform", "witness", "regress", "core", "stop"],
             "nontrivial_rule": "a term lasting at least two successful refreshes with a second instance or a stop in the trace",
             "mc": ["MC_Core2"]},
     "C08": {"families": ["conform", "witness", "slowop", "regress", "core", "faults", "health", "conn", "stop", "prio"],
             "nontrivial_rule": "at least one promotion and one loss of leadership",
-            "mc": ["MC_Core2", "MC_Faults"]},
+            "mc": ["MC_Core2", "MC_Faults", "MC_Abort", "MC_ValCancel"]},
     "C09": {"families": ["conform", "witness", "stop", "core", "conn"],
             "nontrivial_rule": "a stop call with a store operation of that instance in flight or a leader being stopped",
-            "mc": ["MC_Core2"]},
+            "mc": ["MC_Core2", "MC_Abort"]},
     "C10": {"families": ["slowop", "prio", "regress"],
             "nontrivial_rule": "a takeover-enabled instance meets a live record of another instance",
-            "mc": ["MC_Prio"]},
+            "mc": ["MC_Prio", "MC_PrioPrompt"]},
     "C11": {"families": ["conn"],
             "nontrivial_rule": "a disconnect notification reaches a leader",
-            "mc": ["MC_Core2"]},
+            "mc": ["MC_Conn"]},
     "C12": {"families": ["health"],
             "nontrivial_rule": "at least one unhealthy result on a leader's heartbeat tick",
             "mc": ["MC_Health"]},
     "C13": {"families": ["slowop", "regress", "validate", "faults"],
             "nontrivial_rule": "an outside write or delete of the record happens while instances run",
-            "mc": ["MC_Faults"]},
+            "mc": ["MC_Outside", "MC_OutsideVal"]},
     "C18": {"families": ["conform", "witness", "slowop", "regress", "core", "stop", "faults", "prio"],
             "nontrivial_rule": "snapshots of at least one leader and one non-leader state",
             "mc": ["MC_Core2"]},
@@ -104,17 +104,19 @@ def model_check(pid, tier, tlc, work, spec, log):
     """Exhaustive TLC runs of the model configurations serving the property (design level).
     Cached by the content of the specification, which does not depend on /repo."""
     res = {"distinct": 0, "generated": 0, "cfgs": []}
-    h = hashlib.sha256()
-    for p in sorted(glob.glob(os.path.join(spec, "*"))):
-        h.update(open(p, "rb").read())
-    sh = h.hexdigest()[:16]
+    def key(cfg):
+        # the model depends on MC.tla -> Election.tla -> Props.tla and on its configuration file only
+        h = hashlib.sha256()
+        for f in ("MC.tla", "Election.tla", "Props.tla", cfg):
+            h.update(open(os.path.join(spec, f), "rb").read())
+        return h.hexdigest()[:16]
     cfgs = []
     for name in PROPS[pid].get("mc", []):
         found = sorted(glob.glob(os.path.join(spec, "%s_%s*.cfg" % (name, tier))))
         cfgs += [os.path.basename(f) for f in found]
     for cfg in cfgs:
         name = cfg[:-4]
-        cache = os.path.join(work, "mc", "%s-%s.json" % (sh, cfg))
+        cache = os.path.join(work, "mc", "%s-%s.json" % (key(cfg), cfg))
         if os.path.exists(cache):
             st = json.load(open(cache))
         else:
